@@ -608,7 +608,8 @@ class GBNFCompiler:
         rules: list[str] = []
 
         # Add primitives
-        rules.append("# GBNF Grammar for OCTAVE schema: " + schema.name)
+        # A line break in the name would end the comment line: the header shows the name on one line
+        rules.append("# GBNF Grammar for OCTAVE schema: " + " ".join(schema.name.splitlines()))
         rules.append("")
 
         # Whitespace rule
